@@ -933,7 +933,8 @@ EXT3 = {
                 level_note="; scenarios with such a foreign write are judged by the trace monitors only (nothing denied is ever handed to Send; status codes), convergence is not defined for them"),
     "C12": dict(level_text=(" Every rapid part runs with a generated glog verbosity (-v 0-3) per case: the diagnostics inside `if log.V(n)` blocks format the very messages a peer sent.")),
     "C02": dict(level_text=(" Further: future thresholds that mean 'never reject' (time.Duration(MaxInt64), 2^62, 290 years: every sum of a threshold and a timestamp wraps); values in the deprecated "
-                            "Update.value field (bytes + encoding, val unset), in one scenario out of eight for most leaves, so that two such values meet on one leaf at one timestamp.")),
+                            "Update.value field (bytes + encoding, val unset), in one scenario out of eight for most leaves, so that two such values meet on one leaf at one timestamp. One scenario in twelve (C02/C03 profiles) stores leaves under an element or key value that is literally '*' "
+                            "(a catch-all selector is a legal list key); those scenarios carry no delete notifications, because the announcement of such a leaf's removal cannot be told from a wildcard delete.")),
     "C14": dict(level_text=(" Part owners (free-running, real scheduler inside a synctest bubble): 2-5 targets each driven by its own goroutine running a sequential script (updates, exact/subtree/glob "
                             "deletes, Reset, Remove, Add, Sync, Connect, ConnectError, queries) plus a refresher goroutine (UpdateMetadata, UpdateSize, Metadata, all-target queries) and 0-2 bystander "
                             "targets; 40 aligned-start rounds per case. Because no operation on one target may change another, under every schedule each target holds after each of its owner's operations "
